@@ -79,7 +79,7 @@ theorem fresh_init (kind : CCKind) (cc : CCState ℚ) (rtt : ℚ) (mss n : Nat) 
   ⟨inv_init _ _ _ _ _ _ hcc hr, rfl, hn, hm, hd, hc, rfl, rfl, rfl, rfl, rfl⟩
 
 theorem SInv_fresh {s : Sender ℚ} (f : Fresh n s) : SInv n s := by
-  refine ⟨f.inv, f.size, f.npos, f.mpos, f.dvd, f.ccmss, ?_, ?_, ?_, ?_, ?_, ?_, ?_, ?_, ?_⟩
+  refine ⟨f.inv, f.size, f.npos, f.mpos, f.dvd, f.ccmss, ?_, ?_, ?_, ?_, ?_, ?_, ?_, ?_, ?_, ?_⟩
   · rw [f.next_seq]; exact Nat.dvd_zero _
   · rw [f.next_seq]; exact Nat.zero_le _
   · left; rw [f.next_seq, f.send_buffer]
@@ -88,6 +88,7 @@ theorem SInv_fresh {s : Sender ℚ} (f : Fresh n s) : SInv n s := by
   · intro e; rw [f.proc] at e; cases e
   · intro e; rw [f.proc] at e; cases e
   · intro kv hkv; rw [f.timers] at hkv; simp at hkv
+  · intro q hq; rw [f.timers] at hq; simp [AL.keys] at hq
   · intro q hq; rw [f.timers] at hq; simp [AL.keys] at hq
 
 theorem LInv_init {s : Sender ℚ} (f : Fresh n s) : LInv n (Loop.init s) := by
